@@ -11,7 +11,9 @@ RULE = ("(a) 'decided' mode: a real controller with a running instance is fed ho
         "(q, q+1, n signers) and one forgery each from the property's grammar: duplicate signer, id 0, non-committee id, "
         "sub-quorum size, signature aggregated from another subset than listed, value not matching root, wrong height, "
         "wrong identifier, non-commit type, corrupted signature; (b) controller-level network runs with <= f Byzantine "
-        "operators forging decided messages from replayed commits. Every reported decision (returned by "
+        "operators forging decided messages from replayed commits; (c) 'solo' histories: one correct operator and every other key "
+        "playing proposal / prepares / commits for rounds 1..3 signed by the right or a wrong leader, justified or not, with a "
+        "valid or invalid value - every locally reached decision must rest on the accepted proposal of the round's leader. Every reported decision (returned by "
         "Controller.ProcessMsg) is checked by the monitor with real BLS verification. Non-trivial = the case contains a "
         "decided-shaped message that is refused (cmsg err after a message with >= quorum signers) or a reported decision; "
         "distinct by op lines")
@@ -45,11 +47,13 @@ def runs(tier, seed):
     r += [("decided7-%d" % i, ["decided", "-seed", str(seed * 10 + 5 + i), "-n", str(150 * k), "-size", "7"]) for i in range(2)]
     r += [("ctrl4-%d" % i, ["net", "-level", "ctrl", "-seed", str(seed * 100 + i), "-n", str(20 * k), "-size", "4"]) for i in range(6)]
     r += [("ctrl7-%d" % i, ["net", "-level", "ctrl", "-seed", str(seed * 100 + 20 + i), "-n", str(5 * k), "-size", "7"]) for i in range(3)]
+    r += [("solo-%d" % i, ["attack", "-only", "solo", "-seed", str(seed * 100 + 40 + i), "-n", str(60 * k)]) for i in range(2)]
+    r += [("attack-%d" % i, ["attack", "-seed", str(seed * 100 + 50 + i), "-n", str(16 * k)]) for i in range(2)]
     return r
 
 
 def search_runs(tier, seed):
-    return [("sd%d" % i, ["decided", "-seed", str(seed * 991 + i), "-n", "1500", "-size", "4"]) for i in range(4)]
+    return [("ss%d" % i, ["attack", "-only", "solo", "-seed", str(seed * 983 + i), "-n", "200"]) for i in range(4)] + [("sd%d" % i, ["decided", "-seed", str(seed * 991 + i), "-n", "1500", "-size", "4"]) for i in range(4)]
 
 
 def nontrivial(case):
